@@ -649,6 +649,8 @@ package gorm
 //@ # returned.
 //@ func (*processor).Execute
 //@   tags C06 C19
+//@   loop 1 invariant without-scopes-the-handle-stays: len(old(db.Statement.scopes)) == 0 ==> db == old(db) && len(db.Statement.scopes) == 0
+//@   ensures same-handle-without-scopes: len(old(db.Statement.scopes)) == 0 ==> result == db
 //@   ensures real-run-clears-the-bound-values: !result.Statement.DB.Config.DryRun ==> result.Statement.Vars == nil [C06]
 //@   ensures real-run-clears-the-built-text: !result.Statement.DB.Config.DryRun ==> textCleared == 1 [C06]
 //@ ghost textCleared
@@ -719,3 +721,18 @@ package gorm
 //@   in gorm.(*DB).CreateInBatches
 //@   min-sites 1
 //@   assert the-batch-runner-is-the-block: true [C05,C13]
+
+//@ # ---------- C15/C06: Count leaves the chain as it found it ----------
+//@ # Count drops ORDER BY for an ungrouped count and replaces SELECT for the duration of the query; a chain in progress
+//@ # that is read again afterwards (same handle) gets both back.
+//@ func (*DB).Count
+//@   tags C15 C06
+//@   assumes handle-well-formed: db.Statement != nil && db.Statement.DB == db && len(db.Statement.scopes) == 0
+//@   let hadOrder = has(db.Statement.Clauses, "ORDER BY")
+//@   let grouped = has(db.Statement.Clauses, "GROUP BY")
+//@   let order0 = db.Statement.Clauses["ORDER BY"]
+//@   let hadSelect = has(db.Statement.Clauses, "SELECT")
+//@   let select0 = db.Statement.Clauses["SELECT"]
+//@   ensures ordering-restored: hadOrder && !grouped ==> has(result.Statement.Clauses, "ORDER BY") && result.Statement.Clauses["ORDER BY"] == order0
+//@   ensures selection-restored: hadSelect ==> has(result.Statement.Clauses, "SELECT") && result.Statement.Clauses["SELECT"] == select0
+//@   ensures no-selection-left-behind: !hadSelect ==> !has(result.Statement.Clauses, "SELECT")
